@@ -438,6 +438,30 @@ C11Clauses ==
               Abs(wo[k][1] - wi[j][1]) <= 1 /\ Abs(wo[k][2] - wi[j][2]) <= 1, "wall")
 
 --------------------------------------------------------------------------
+(* C04 on orthogonal grids: radially adjacent contour points lie on one integral curve of grad(psi) *)
+\* Obs.c04[id + 1].dev[k][j]: k = 1..2nx (pair of lattice columns k, k+1; column 1 is the inner x-face), j = 1..2ny+1 (row 1 is the
+\* lower y-face).  A pair is excused when one of its points is an X-point (grad(psi) = 0 there): first / last row of a region that
+\* starts / ends at an X-point, at the column of that X-point's separatrix.
+SepCol(r, s1, X) == IF XFace(X) = SX0(s1) THEN 1 ELSE IF s1 < NSeg(T) /\ XFace(X) = SX0(s1 + 1) THEN 2 * cfg.nx[s1] + 1
+                    ELSE IF s1 = NSeg(T) /\ XFace(X) = SX0(s1) + cfg.nx[s1] THEN 2 * cfg.nx[s1] + 1 ELSE 0
+Excused(r, s1, k, j) ==
+  \E X \in XPts :
+     LET c == SepCol(r, s1, X) IN
+     /\ c # 0 /\ (k = c \/ k + 1 = c)
+     /\ \/ (r \in StartsAt(X) /\ j = 1)
+        \/ (r \in EndsAt(X) /\ j = 2 * RNy(r) + 1)
+AdjXRow(y) == XRow(y) \/ (y > 0 /\ XRow(y - 1)) \/ (y + 1 < NY /\ XRow(y + 1))
+C04Clauses ==
+  IF Obs.orth = 0 THEN TRUE ELSE
+  /\ ClauseAt("SameIntegralCurve", \A r \in 1..NR(T) : \A s1 \in 1..NSeg(T) :
+        LET dv == Obs.c04[IdOf(r, s1) + 1].dev IN
+        /\ Len(dv) = 2 * cfg.nx[s1]
+        /\ \A k \in 1..Len(dv) : /\ Len(dv[k]) = 2 * RNy(r) + 1
+                                  /\ \A j \in 1..Len(dv[k]) : Excused(r, s1, k, j) \/ (dv[k][j] # NANV /\ dv[k][j] <= 500), "pairs")     \* 5e-6 m
+  /\ ClauseAt("RadialParallelToGradPsi", \A x \in XS : \A y \in YS : TouchesX(x, y) \/ (Obs.sinc[x + 1][y + 1] # NANV /\ Obs.sinc[x + 1][y + 1] <= 60000), "cells")
+  /\ ClauseAt("RadialParallelToGradPsi", \A x \in XS : \A y \in YS : AdjXRow(y) \/ (Obs.sinc[x + 1][y + 1] # NANV /\ Obs.sinc[x + 1][y + 1] <= 10000), "awayX")
+
+--------------------------------------------------------------------------
 Observe ==
   /\ stage = "file"
   /\ CASE Obs.prop = "C01" -> C01Clauses
@@ -450,6 +474,7 @@ Observe ==
        [] Obs.prop = "C05" -> C05Clauses
        [] Obs.prop = "C10" -> C10Clauses
        [] Obs.prop = "C11" -> C11Clauses
+       [] Obs.prop = "C04" -> C04Clauses
        [] Obs.prop = "C06" -> C06Clauses
        [] OTHER -> TRUE
   /\ stage' = "observed"
